@@ -43,12 +43,6 @@ func (c *Ctx) idSpec() *Spec {
 			case "(net/http.Handler).ServeHTTP":
 				return "next"
 			}
-			if strings.HasSuffix(n, "logging.handleRequestID") {
-				return "handleRequestID"
-			}
-			if strings.HasSuffix(n, "logging.handleTraceID") {
-				return "handleTraceID"
-			}
 			return ""
 		},
 		Cond: p.condMentions("Enabled", "strings.TrimSpace(", "Header).Values(", "Header).Get("),
@@ -58,10 +52,10 @@ func (c *Ctx) idSpec() *Spec {
 				return false
 			}
 			switch callee.Name() {
-			case "generateIdentifier", "RequestHeaderName", "TraceHeaderName", "L", "WithContext", "enrichLogger", "contextWithLogger", "handleRequestID", "handleTraceID":
+			case "generateIdentifier", "RequestHeaderName", "TraceHeaderName", "L", "WithContext", "enrichLogger", "contextWithLogger":
 				return false
 			}
-			return true // local helpers shared by the two handlers
+			return true // the per-identifier handlers and whatever helper they share
 		},
 	}
 }
@@ -77,9 +71,33 @@ func checkC16(c *Ctx) {
 	c.Clause("buildHandler applies RequestContextMiddleware outermost on every non-error path")
 	c.NotDecided("a second value added by inner layers (backend echo through httputil's additive header copy, the request-id plugin); statistical uniqueness")
 
-	for _, spec := range [][3]string{{"handleRequestID", "config.RequestIDConfig.Enabled", "req"}, {"handleTraceID", "config.TraceConfig.Enabled", "trace"}} {
-		fn := p.Fn("internal/logging", "", spec[0])
-		c.traceRule("id-propagation", "logging."+spec[0], fn, c.idSpec(),
+	// The rules are stated end to end on the middleware's handler, with the logging package's own
+	// helpers inlined: whether the two identifiers are handled by two functions, one shared helper or
+	// inline code makes no difference.
+	rcm := p.Fn("internal/logging", "", "RequestContextMiddleware")
+	var inner *ssa.Function
+	if rcm != nil {
+		for _, cl := range Closures(rcm) {
+			if cl.Signature.Params().Len() == 2 {
+				inner = cl
+			}
+		}
+	}
+	const nameFn = "call:github.com/0xReLogic/Helios/internal/logging."
+	isHdr := func(it Item) bool {
+		return strings.HasPrefix(it.Label, "req.") || strings.HasPrefix(it.Label, "resp.") || strings.HasPrefix(it.Label, "?.")
+	}
+	keyOf := func(it Item) string { // the header-name descriptor of a header item
+		l := it.Label[strings.Index(it.Label, "(")+1:]
+		if i := strings.LastIndex(l, ")="); i >= 0 {
+			l = l[:i]
+		}
+		return l
+	}
+	for _, spec := range [][3]string{{"request-id", "config.RequestIDConfig.Enabled", "RequestHeaderName("}, {"trace-id", "config.TraceConfig.Enabled", "TraceHeaderName("}} {
+		spec := spec
+		mine := func(it Item) bool { return isHdr(it) && strings.HasPrefix(keyOf(it), nameFn+spec[2]) }
+		c.traceRule("id-propagation", "logging.RequestContextMiddleware/"+spec[0], inner, c.idSpec(),
 			"disabled: no header touched; enabled: one response Set under the configured name; generated value mirrored to the request, supplied value echoed trimmed",
 			func(t *Trace) string {
 				en, _, ok := c.findRel(t, spec[1], "", 0, -1)
@@ -88,7 +106,7 @@ func checkC16(c *Ctx) {
 				}
 				var hdr []Item
 				for _, it := range t.Items {
-					if strings.HasPrefix(it.Label, "req.") || strings.HasPrefix(it.Label, "resp.") || strings.HasPrefix(it.Label, "?.") {
+					if mine(it) {
 						hdr = append(hdr, it)
 					}
 				}
@@ -106,27 +124,37 @@ func checkC16(c *Ctx) {
 						req = append(req, it)
 					}
 				}
-				if len(resp) != 1 || !strings.HasPrefix(resp[0].Label, "resp.Set(param:header)=") {
+				if len(resp) != 1 || !strings.HasPrefix(resp[0].Label, "resp.Set(") {
 					return fmt.Sprintf("enabled but the response header is not set exactly once under the configured name (%d response header operations)", len(resp))
 				}
-				rv := strings.TrimPrefix(resp[0].Label, "resp.Set(param:header)=")
-				sup, _, okS := c.findRel(t, "strings.TrimSpace(", "", 0, -1)
+				rv := resp[0].Label[strings.LastIndex(resp[0].Label, ")=")+2:]
+				key := keyOf(resp[0])
+				var sup Rel
+				okS := false
+				for _, it := range t.Items {
+					if _, isIf := it.Instr.(*ssa.If); !isIf {
+						continue
+					}
+					r := c.condRel(it)
+					if r.OK && strings.Contains(r.X, "strings.TrimSpace(") && strings.Contains(r.X, "(net/http.Header).Get(fld:http.Request.Header,"+key+")") {
+						sup, okS = r, true
+						break
+					}
+				}
 				if !okS {
-					return "undecided: supplied value is not tested for emptiness"
+					return "undecided: the identifier supplied under the configured request header is not tested for emptiness (after trimming)"
 				}
 				supplied := sup.Neq || sup.Lo != 0
-				if !strings.Contains(sup.X, "(net/http.Header).Get(fld:http.Request.Header,param:header)") {
-					return "the supplied identifier is not read from the configured request header: " + sup.X
-				}
 				if supplied {
 					if len(req) != 0 {
 						return "client-supplied identifier is altered on the request: " + req[0].Label
 					}
 				} else {
-					if len(req) != 1 || !strings.HasPrefix(req[0].Label, "req.Set(param:header)=") {
+					if len(req) != 1 || !strings.HasPrefix(req[0].Label, "req.Set(") {
 						return "generated identifier is not placed on the request under the configured name"
 					}
-					if v := strings.TrimPrefix(req[0].Label, "req.Set(param:header)="); !strings.Contains(rv, v) && !strings.Contains(v, "generateIdentifier") {
+					v := req[0].Label[strings.LastIndex(req[0].Label, ")=")+2:]
+					if !strings.Contains(rv, v) && !strings.Contains(v, "generateIdentifier") {
 						return "request and response receive different generated values"
 					}
 				}
@@ -153,43 +181,36 @@ func checkC16(c *Ctx) {
 				return ""
 			})
 	}
-	// middleware: IDs handled before the chain; header names are the configured ones
-	rcm := p.Fn("internal/logging", "", "RequestContextMiddleware")
-	var inner *ssa.Function
-	if rcm != nil {
-		for _, cl := range Closures(rcm) {
-			if cl.Signature.Params().Len() == 2 {
-				inner = cl
-			}
-		}
-	}
 	c.traceRule("ids-before-chain", "logging.RequestContextMiddleware/handler", inner, c.idSpec(),
-		"both identifiers are handled exactly once before next.ServeHTTP",
+		"every identifier header is written before next.ServeHTTP and the chain runs exactly once",
 		func(t *Trace) string {
 			ni := t.Index("next", 0)
 			if ni < 0 {
 				return "the chain is never invoked"
 			}
-			for _, l := range []string{"handleRequestID", "handleTraceID"} {
-				if t.Count(l) != 1 || t.Index(l, 0) > ni {
-					return l + " does not run exactly once before the chain (a header set after the chain has written is lost)"
+			if t.Count("next") != 1 {
+				return "the chain is invoked more than once"
+			}
+			for i, it := range t.Items {
+				if isHdr(it) && i > ni {
+					return "an identifier header is written after the chain ran (a header set after the chain has written is lost): " + it.Label
 				}
 			}
 			return ""
 		})
-	if inner != nil {
-		for _, ci := range callsIn(inner) {
-			n := CalleeName(ci)
-			for _, pair := range [][2]string{{"handleRequestID", "RequestHeaderName"}, {"handleTraceID", "TraceHeaderName"}} {
-				if strings.HasSuffix(n, "logging."+pair[0]) {
-					args := ci.Common().Args
-					d := p.Desc(args[len(args)-1], nil)
-					c.Check(strings.HasPrefix(d, "call:github.com/0xReLogic/Helios/internal/logging."+pair[1]+"("), "configured-header-name", "logging.RequestContextMiddleware/"+pair[0], p.InstrPos(ci),
-						"header name is "+pair[1]+"(cfg)", "header name is not the configured one: "+d)
+	c.traceRule("configured-header-name", "logging.RequestContextMiddleware/handler", inner, c.idSpec(),
+		"every header the middleware touches is named by RequestHeaderName(cfg) or TraceHeaderName(cfg)",
+		func(t *Trace) string {
+			for _, it := range t.Items {
+				if !isHdr(it) {
+					continue
+				}
+				if k := keyOf(it); !strings.HasPrefix(k, nameFn+"RequestHeaderName(") && !strings.HasPrefix(k, nameFn+"TraceHeaderName(") {
+					return "header name is not the configured one: " + it.Label
 				}
 			}
-		}
-	}
+			return ""
+		})
 	// generator
 	gen := p.Fn("internal/logging", "", "generateIdentifier")
 	if gen == nil {
@@ -275,8 +296,15 @@ func (c *Ctx) idHeadersSurvive() {
 				if name == "(net/http.Header).Del" && !isConst {
 					bad = append(bad, p.InstrPos(ci)+": "+p.FuncKey(fn)+" deletes response headers under a computed key ("+p.Desc(args[1], nil)+"): the request/trace ID headers set by the outer middleware are removed from this response")
 				}
-				if isConst && (strings.EqualFold(key, "X-Request-ID") || strings.EqualFold(key, "X-Trace-ID")) && !strings.HasSuffix(fnPkg(fn).Pkg.Path(), "/internal/logging") && fn.Name() != "init" && !strings.Contains(p.FuncKey(fn), "example_request_id") && !strings.HasPrefix(p.FuncKey(fn), "plugins.init#") {
-					bad = append(bad, p.InstrPos(ci)+": "+p.FuncKey(fn)+" rewrites the "+key+" response header inside the chain")
+				if isConst && (strings.EqualFold(key, "X-Request-ID") || strings.EqualFold(key, "X-Trace-ID")) && !strings.HasSuffix(fnPkg(fn).Pkg.Path(), "/internal/logging") {
+					// An opt-in plugin may publish an identifier of its own (the request-id plugin does);
+					// what must not happen inside the chain is removing the header or pinning it to a
+					// fixed value, and nothing outside the plugin package has business writing it at all.
+					inPlugin := strings.HasSuffix(fnPkg(fn).Pkg.Path(), "/internal/plugins")
+					_, fixed := constStr(args[len(args)-1])
+					if name == "(net/http.Header).Del" || !inPlugin || (len(args) == 3 && fixed) {
+						bad = append(bad, p.InstrPos(ci)+": "+p.FuncKey(fn)+" removes or overwrites the "+key+" response header inside the chain")
+					}
 				}
 			case "builtin:delete":
 				if strings.Contains(p.Desc(args[0], nil), "ResponseWriter).Header(") {
